@@ -303,8 +303,38 @@ MUST_REFUSE = [
     ("incompatible-conditional", "(e.x > 1) if e.c else 2"), ("incompatible-conditional", "3.5 if e.c else (e.x > 1 and e.y < 2)"), ("incompatible-conditional", "e.f(1 if e.c else 'a')"),
     ("non-transportable-constant", "None"), ("non-transportable-constant", "e.f(None)"), ("non-transportable-constant", "..."), ("non-transportable-constant", "e.jets.Select(lambda j: (j.pt, None))"),
     ("tuple-index", "(e.x, e.y)[2]"), ("tuple-index", "(e.x, e.y)[e.i]"), ("tuple-index", "(e.x, e.y)[-1]"), ("tuple-index", "e.f((e.x,)[1])"),
+    ("absent-dict-key", "{'a': e.x}['{b}']"), ("absent-dict-key", "{'a': e.x}['{}']"), ("absent-dict-key", "{'a': e.x}['x{}y']"), ("absent-dict-key", "{'a': e.x}['{0}']"),
+    ("absent-dict-key", "{'a': e.x}['%s']"), ("absent-dict-key", "{'a': {'b': 1}}['a']['{a}']"),
     ("absent-dict-key", "{'a': e.x}.b"), ("absent-dict-key", "{'a': e.x}['b']"), ("absent-dict-key", "{'a': e.x, 'c': 1}.b + 1"),
 ]
+
+
+PARAM_LISTS = [
+    # one positional parameter whose parameter list carries more than the bare name: still emitted exactly
+    "lambda e=1: e.x", "lambda e=(1, 2): e[0]", "lambda e, *rest: e.x + 1", "lambda e, **kw: e.x", "lambda e, *, cut=30: e.pt > cut",
+    "lambda e, /: e.x", "lambda e=None.__class__: e.x" if False else "lambda e='s': e.x", "lambda e, *a, k=1, **kw: (e.x, k)",
+]
+
+
+def parameter_lists(ctx, ds):
+    for text in PARAM_LISTS:
+        for opname in ("Select", "SelectMany", "Where"):
+            t = text if opname != "Where" or ">" in text else text.replace(": ", ": (", 1) + ") == 1"
+            for mode in ("string", "ast"):
+                ctx.case(f"param-list|{opname}|{mode}|{t}", True)
+                ctx.count("parameter-list-cases")
+                lam_in = astx.parse_expr(t)
+                try:
+                    s = getattr(ds, opname)(t if mode == "string" else astx.parse_expr(t))
+                except ValueError as e:
+                    ctx.violation("undesigned-refusal:parameter-list", f"{opname}({mode}): {t} :: ValueError {str(e)[:120]}", {"op": opname, "mode": mode, "text": t, "param_list": True})
+                    continue
+                except Exception as e:
+                    ctx.violation(f"internal-error:{type(e).__name__}@{astx.repo_frame(e, REPO)}", f"{opname}({mode}): {t} :: {type(e).__name__}: {str(e)[:120]}", {"op": opname, "mode": mode, "text": t, "param_list": True})
+                    continue
+                out = s.query_ast.args[1]
+                if not astx.struct_eq(out, lam_in):
+                    ctx.violation("changed:parameter-list", f"{opname}({mode}): {t} emitted as {astx.unparse(out)[:160]} :: {astx.first_diff(out, lam_in)}", {"op": opname, "mode": mode, "text": t, "param_list": True})
 
 
 def must_refuse(ctx, ds):
@@ -341,6 +371,7 @@ def shard_main(ctx):
     ds = DS()
     if ctx.shard == 0:
         must_refuse(ctx, ds)
+        parameter_lists(ctx, ds)
     l1 = level1()
     todo = [(t, tag, 1) for t, tag in l1]
     todo += [(t, tag, 2) for t, tag in level2(l1)]
@@ -402,6 +433,9 @@ def replay(ctx, witness):
     ds = DS()
     if "must_refuse" in witness:
         must_refuse(ctx, ds)
+        return
+    if witness.get("param_list"):
+        parameter_lists(ctx, ds)
         return
     text, opname = witness["text"], witness["op"]
     if witness["mode"] == "callable":
